@@ -188,8 +188,11 @@ def run_replay(prop, record, tier="quick"):
             # the scenario program itself died.  When the innermost frame of the traceback is library code (not the harness),
             # the library raised where the unchanged tree does not: that is a native failure, with the exception as witness.
             # A crash inside the harness (e.g. it reaches for a private name a refactoring renamed) stays "not understood".
-            frames = [ln for ln in p.stderr.splitlines() if ln.lstrip().startswith('File "')]
-            last = (p.stderr.strip().splitlines() or [""])[-1]
+            # (exception groups print their members behind a "  | " gutter and end with a "+----" rule: normalised away)
+            err = [re.sub(r"^[\s|+]*(-+\s*\d*\s*-+)?", "", ln) for ln in p.stderr.splitlines()]
+            err = [ln for ln in err if ln.strip()]
+            frames = [ln for ln in err if ln.startswith('File "')]
+            last = (err or [""])[-1]
             repo_src = os.environ.get("VERIF_REPO", "/repo") + "/src/haiway/"
             if p.returncode != 0 and frames and repo_src in frames[-1]:
                 where = frames[-1].strip()
@@ -201,8 +204,12 @@ def run_replay(prop, record, tier="quick"):
                 # library handed the harness something it cannot use (a decorator that returns None, a class that cannot be
                 # declared, a call that needs other arguments).  The one exception: the harness reaching for a *private* name
                 # of the library that is no longer there (a renaming refactor) - that is the harness's problem, not a verdict.
-                private = (last.startswith(("AttributeError", "ImportError", "NameError", "KeyError")) and "'_" in last
-                           and "NoneType" not in last)
+                # (the *missing* name decides, not the class named in the message: "'_AsyncCache' object has no attribute
+                # '__name__'" is a lost dunder attribute of a wrapper - a verdict -, not a renamed private member)
+                m_name = re.search(r"has no attribute '(\w+)'|cannot import name '(\w+)'|name '(\w+)' is not defined|^KeyError: '(\w+)'", last)
+                missing_name = next((g for g in (m_name.groups() if m_name else ()) if g), "")
+                private = (last.startswith(("AttributeError", "ImportError", "NameError", "KeyError")) and "NoneType" not in last
+                           and missing_name.startswith("_") and not (missing_name.startswith("__") and missing_name.endswith("__")))
                 if not private:
                     return dict(reproduced=True, cases_tried=1,
                                 detail=dict(problem=f"the native scenario program, which runs to its end on the unchanged tree, was "
